@@ -215,7 +215,7 @@ fn judge(bytes: &[u8], claimed_len: usize, pairs: &[(u32, Vec<u8>)], presorted: 
         // the iterator through every Iterator method a client may call (position-independent: tag, length, first and last byte)
         let sig = |t: u32, v: &[u8]| (t, v.len(), v.first().copied(), v.last().copied());
         let want: Vec<_> = sorted.iter().map(|(t, v)| sig(*t, v)).collect();
-        mc_core::iter_battery(|| view.iter().map(|(t, v)| sig(t.value(), v)), &want, "view.iter()")?;
+        mc_core::iter_battery(|| view.iter(), |(t, v)| sig(t.value(), v), &want, "view.iter()")?;
     }
     let tags: Vec<u32> = view.tags().iter().map(|t| t.value()).collect();
     if tags != sorted.iter().map(|p| p.0).collect::<Vec<_>>() {
